@@ -46,7 +46,7 @@ BOUNDS = {
              "LFR burn_in in {0,1,2} x subsample in {1,2}, N<=3; KdqTreeStreaming window in {1,2}, N<=3w+4; KdqTreeBatch N<=4; "
              "HDDDM/CDBD detect_batch in {1,2,3} x {stdev,tstat}, N<=4(5); NNDVI N<=4; PCACD window 2, both metrics, scaling "
              "on/off, N<=4w+2",
-    "thorough": "as quick with STEPD L<=5, CUSUM N<=2*burn_in+4, ADWIN max_buckets<=3, period in {1,2,4}, N<=10, LFR N<=4, "
+    "thorough": "as quick with STEPD L<=5, CUSUM N<=2*burn_in+4, ADWIN max_buckets<=3, period in {1,2,4}, N=10 (13 with period 4, 8 for max_buckets=3 with period 1), LFR N<=4, "
                 "kdq window<=3, HDM N<=6(7), PCACD window in {2,3}",
 }
 OUTSIDE = ("histories longer than N for the B-shaped detectors; IEEE rounding / NaN for the S-shaped steps (exact real "
